@@ -243,14 +243,16 @@ func (R *Report) finish(evDir string, wall time.Duration) bool {
 	if len(viol) > 0 {
 		R.printViolations(os.Stdout)
 		if evDir != "" {
-			replay = filepath.Join(evDir, R.Prop+".violations.json")
-			_ = os.MkdirAll(evDir, 0o755)
+			replay = replayPath(evDir, R.Prop)
 			b, _ := json.MarshalIndent(map[string]any{"property": R.Prop, "violations": viol}, "", " ")
 			_ = os.WriteFile(replay, b, 0o644)
 		}
 		fmt.Printf("VIOLATION property=%s replay=%s\n", R.Prop, replay)
 	}
 	if evDir != "" {
+		if len(viol) == 0 {
+			_ = os.Remove(replayPath(evDir, R.Prop))
+		}
 		R.writeEvidence(evDir, wall, disc, len(viol), known)
 	}
 	return len(viol) > 0
@@ -360,7 +362,7 @@ func failAll(prop, tier, evDir, reason, detail string, start time.Time) {
 		replay := ""
 		if evDir != "" {
 			_ = os.MkdirAll(evDir, 0o755)
-			replay = filepath.Join(evDir, id+".violations.json")
+			replay = replayPath(evDir, id)
 			b, _ := json.MarshalIndent(map[string]any{"property": id, "reason": reason, "detail": detail}, "", " ")
 			_ = os.WriteFile(replay, b, 0o644)
 			ev := map[string]any{"property_id": id, "tier": tier, "seed": 0, "level": "other", "wall_s": time.Since(start).Seconds(), "violations": 1,
@@ -371,4 +373,11 @@ func failAll(prop, tier, evDir, reason, detail string, start time.Time) {
 		fmt.Printf("%s: %s\n", reason, detail)
 		fmt.Printf("VIOLATION property=%s replay=%s\n", id, replay)
 	}
+}
+
+// replayPath: violations of the last failing run live beside (not inside) the evidence directory.
+func replayPath(evDir, prop string) string {
+	dir := filepath.Join(filepath.Dir(filepath.Clean(evDir)), "replay")
+	_ = os.MkdirAll(dir, 0o755)
+	return filepath.Join(dir, prop+".violations.json")
 }
